@@ -179,3 +179,17 @@ def lock_regions(b):
             region = b.reachable_from(start, avoid=drops)
             out.append((bi, guard_locals, region, drops))
     return out
+
+
+def named_root(b, op, depth=0):
+    """debug name of the local an operand is (a chain of plain copies of), or None"""
+    pl = op.get("cp") or op.get("mv")
+    if not pl or pl.get("p") or depth > 8:
+        return None
+    l = pl["l"]
+    if l in b.names:
+        return b.names[l]
+    ds = b.defs().get(l, [])
+    if len(ds) == 1 and ds[0][0] == "s" and ds[0][3]["rv"]["k"] == "use":
+        return named_root(b, ds[0][3]["rv"]["a"], depth + 1)
+    return None
